@@ -315,9 +315,7 @@ func pathsIn(e ast.Expr) []string {
 		}
 		switch t := n.(type) {
 		case *ast.Ident:
-			if t.Obj != nil {
-				out = append(out, mark(t.Name))
-			}
+			out = append(out, mark(t.Name))
 		case *ast.SelectorExpr:
 			if p, ok := pathOf(t); ok {
 				out = append(out, "*"+p)
@@ -419,7 +417,10 @@ func mayModify(n ast.Node, paths []string) bool {
 				}
 			}
 			for _, a := range t.Args {
-				if _, isPath := basePath(a); isPath {
+				// the value of a variable or a sub-slice of it; an ELEMENT `p[i]` handed over cannot change p
+				if _, isSlice := a.(*ast.SliceExpr); isSlice {
+					hit = hit || passed(a)
+				} else if _, isPath := pathOf(a); isPath {
 					hit = hit || passed(a)
 				}
 			}
@@ -604,6 +605,148 @@ func inlineNewAliases(fn *ast.FuncDecl, fresh []*ast.Object) {
 		} else {
 			def.Lhs = append(def.Lhs[:idx:idx], def.Lhs[idx+1:]...)
 			def.Rhs = append(def.Rhs[:idx:idx], def.Rhs[idx+1:]...)
+		}
+	}
+}
+
+// ---- equivalent spellings of declarations and counting loops (audit/refactor-report.md, cause 2)
+//
+//	var i int                         →  i := 0                      (one name, an integer type, no value)
+//	for i := 0; i < N; i++ { B }      →  for i := range N { B }      (B does not assign i or modify what N reads)
+//	for i := range N { B }, i unused  →  for range N { B }
+//	for i := 1; i < len(X); i++ { B } →  for i := range X[1:] { i++; B }   (same conditions)
+//
+// The right-hand forms are the canonical ones: the expected statement texts of the modules are written in them.
+// (`for range N` evaluates N once, the three-clause loop every time round: they agree when the body does not
+// modify N.  A callback invoked by the body that changed N behind the loop's back would tell them apart; the
+// correspondence run, not this shape check, is what covers such behaviour.)
+
+func usesObj(n ast.Node, obj *ast.Object, name string) bool {
+	used := false
+	var walk func(m ast.Node) bool
+	walk = func(m ast.Node) bool {
+		switch t := m.(type) {
+		case *ast.SelectorExpr:
+			ast.Inspect(t.X, walk)
+			return false
+		case *ast.Ident:
+			if (obj != nil && t.Obj == obj) || (obj == nil && t.Name == name) {
+				used = true
+			}
+		}
+		return !used
+	}
+	ast.Inspect(n, walk)
+	return used
+}
+
+func assignsObj(n ast.Node, obj *ast.Object) bool {
+	hit := false
+	is := func(e ast.Expr) bool {
+		id, ok := e.(*ast.Ident)
+		return ok && id.Obj == obj
+	}
+	ast.Inspect(n, func(m ast.Node) bool {
+		switch t := m.(type) {
+		case *ast.AssignStmt:
+			for _, l := range t.Lhs {
+				hit = hit || is(l)
+			}
+		case *ast.IncDecStmt:
+			hit = hit || is(t.X)
+		case *ast.RangeStmt:
+			hit = hit || (t.Key != nil && is(t.Key)) || (t.Value != nil && is(t.Value))
+		case *ast.UnaryExpr:
+			hit = hit || (t.Op == token.AND && is(t.X))
+		}
+		return !hit
+	})
+	return hit
+}
+
+func isIntLit(e ast.Expr, v string) bool {
+	l, ok := e.(*ast.BasicLit)
+	return ok && l.Kind == token.INT && l.Value == v
+}
+
+// countingLoop recognises `for i := <start>; i < N; i++ { B }` where B neither assigns i nor modifies N.
+func countingLoop(l *ast.ForStmt, start string) (i *ast.Ident, n ast.Expr, ok bool) {
+	init, ok1 := l.Init.(*ast.AssignStmt)
+	cond, ok2 := l.Cond.(*ast.BinaryExpr)
+	post, ok3 := l.Post.(*ast.IncDecStmt)
+	if !ok1 || !ok2 || !ok3 || init.Tok != token.DEFINE || len(init.Lhs) != 1 || len(init.Rhs) != 1 || !isIntLit(init.Rhs[0], start) ||
+		cond.Op != token.LSS || post.Tok != token.INC {
+		return nil, nil, false
+	}
+	i, ok = init.Lhs[0].(*ast.Ident)
+	if !ok || i.Obj == nil {
+		return nil, nil, false
+	}
+	ci, ok4 := cond.X.(*ast.Ident)
+	pi, ok5 := post.X.(*ast.Ident)
+	if !ok4 || !ok5 || ci.Obj != i.Obj || pi.Obj != i.Obj || usesObj(cond.Y, i.Obj, "") {
+		return nil, nil, false
+	}
+	if cloneExpr(cond.Y, token.NoPos, nil) == nil || assignsObj(l.Body, i.Obj) || mayModify(l.Body, pathsIn(cond.Y)) {
+		return nil, nil, false
+	}
+	return i, cond.Y, true
+}
+
+func normalizeStmts(fn *ast.FuncDecl) {
+	for _, list := range stmtLists(fn.Body) {
+		for k, st := range *list {
+			switch t := st.(type) {
+			case *ast.DeclStmt:
+				gd, ok := t.Decl.(*ast.GenDecl)
+				if !ok || gd.Tok != token.VAR || len(gd.Specs) != 1 {
+					continue
+				}
+				vs := gd.Specs[0].(*ast.ValueSpec)
+				ty, ok := vs.Type.(*ast.Ident)
+				if !ok || len(vs.Names) != 1 || len(vs.Values) != 0 || ty.Obj != nil {
+					continue
+				}
+				switch ty.Name {
+				case "int", "int8", "int16", "int32", "int64", "uint", "uint8", "uint16", "uint32", "uint64", "uintptr", "byte":
+					if ty.Name != "int" {
+						continue // `x := 0` would be an int
+					}
+					as := &ast.AssignStmt{Lhs: []ast.Expr{vs.Names[0]}, TokPos: t.Pos(), Tok: token.DEFINE, Rhs: []ast.Expr{&ast.BasicLit{ValuePos: vs.Names[0].End(), Kind: token.INT, Value: "0"}}}
+					if vs.Names[0].Obj != nil {
+						vs.Names[0].Obj.Decl = as
+					}
+					(*list)[k] = as
+				}
+			case *ast.ForStmt:
+				if i, n, ok := countingLoop(t, "0"); ok {
+					r := &ast.RangeStmt{For: t.For, Key: i, TokPos: i.End(), Tok: token.DEFINE, Range: n.Pos(), X: n, Body: t.Body}
+					if !usesObj(t.Body, i.Obj, "") {
+						r.Key, r.Tok = nil, token.ILLEGAL
+					}
+					(*list)[k] = r
+				} else if i, n, ok := countingLoop(t, "1"); ok {
+					if c, isCall := n.(*ast.CallExpr); isCall && len(c.Args) == 1 {
+						if f, isId := c.Fun.(*ast.Ident); isId && f.Name == "len" && f.Obj == nil {
+							if _, isPath := pathOf(c.Args[0]); isPath {
+								at := n.Pos()
+								inc := &ast.IncDecStmt{X: &ast.Ident{NamePos: t.Body.Lbrace, Name: i.Name, Obj: i.Obj}, TokPos: t.Body.Lbrace, Tok: token.INC}
+								body := &ast.BlockStmt{Lbrace: t.Body.Lbrace, List: append([]ast.Stmt{inc}, t.Body.List...), Rbrace: t.Body.Rbrace}
+								x := &ast.SliceExpr{X: c.Args[0], Lbrack: at, Low: &ast.BasicLit{ValuePos: at, Kind: token.INT, Value: "1"}, Rbrack: at}
+								(*list)[k] = &ast.RangeStmt{For: t.For, Key: i, TokPos: i.End(), Tok: token.DEFINE, Range: at, X: x, Body: body}
+							}
+						}
+					}
+				}
+			case *ast.RangeStmt:
+				if id, ok := t.Key.(*ast.Ident); ok && t.Value == nil && t.Tok == token.DEFINE && id.Obj != nil && id.Name != "_" && !usesObj(t.Body, id.Obj, "") {
+					if _, isLit := t.X.(*ast.BasicLit); isLit || cloneExpr(t.X, token.NoPos, nil) != nil {
+						// only for integer ranges would dropping the key be a pure respelling; `for i := range slice` with
+						// an unused i is `for range slice` as well, so no type knowledge is needed
+						t.Key, t.Tok = nil, token.ILLEGAL
+					}
+				}
+			}
 		}
 	}
 }
